@@ -544,3 +544,79 @@ Print Assumptions pca_rank_scale_invariant.
 Example pca_rank_absolute_rule_differs :
   rank_rel (1 # 100) [3 # 1000]%Q = 1 /\ rank_abs (1 # 100) [3 # 1000]%Q = 0 /\ rank_abs (1 # 100) [3 # 10]%Q = 1.
 Proof. exact rank_abs_not_scale_invariant_proof. Qed.
+
+(* ------------------------------------------------------------------------------------------------
+   Image-level axis names (io_axis_indices / time_slice_diffs_image; ImgAxisModel.v).
+   For EVERY coordmap of a permuted-diagonal affine (any number of axes, any order of the array axes
+   relative to the world axes, input axis k driving output axis p[k]): *)
+From NV.C19 Require Import ImgAxisModel ImgAxisProofs.
+
+(* every documented spelling of array axis k - its index, its negative index, its input name (when no output axis
+   other than its partner has that name), its partner's output name (when no input axis has it) - resolves to
+   (input index k, output index p[k]); and conversely whatever pair is returned is an array axis the id names,
+   with its partner: the input index, never the output index, addresses the array. *)
+Theorem io_axis_indices_names_array_axis :
+  forall cm p, wf_cmap cm p ->
+  (forall k id, k < length (in_names cm) -> names_axis cm p k id ->
+     io_axis_indices cm id = AxOk (Some k) (Some (nth k p 0)))
+  /\ (forall id i o, io_axis_indices cm id = AxOk (Some i) (Some o) ->
+     i < length (in_names cm) /\ o = nth i p 0 /\ names_axis cm p i id).
+Proof.
+  intros cm p W. split.
+  - intros k id Hk Hn. exact (io_axis_indices_resolves cm p k id W Hk Hn).
+  - intros id i o H. exact (io_axis_indices_sound cm p id i o W H).
+Qed.
+Print Assumptions io_axis_indices_names_array_axis.
+
+(* a name shared by an input axis and a NON-corresponding output axis is rejected (AxisError) *)
+Theorem io_axis_indices_ambiguous_name_rejected :
+  forall cm p s i j, wf_cmap cm p ->
+  sindex s (in_names cm) = Some i -> sindex s (out_names cm) = Some j -> j <> nth i p 0 ->
+  io_axis_indices cm (AxName s) = AxMismatch.
+Proof. exact io_axis_indices_ambiguous. Qed.
+Print Assumptions io_axis_indices_ambiguous_name_rejected.
+
+(* time_slice_diffs_image = time_slice_diffs on the ARRAY positions (kt, ks) of the named axes, whatever the order of
+   the world axes; volume outputs carry the input names without kt and the output names without p[kt].  Together
+   with tsd_axis_equivariant / tsd_definition (which hold for every kt <> ks) this is the axis clause for images. *)
+Theorem tsd_image_is_array_call_on_input_axes :
+  forall cm p (a : nda Z) kt ks tid sid,
+  wf_cmap cm p -> kt < length (in_names cm) -> ks < length (in_names cm) ->
+  names_axis cm p kt tid -> names_axis cm p ks sid ->
+  tsd_image cm a tid sid
+  = ImgRes (tsd a (Z.of_nat kt) (Some (Z.of_nat ks))) (remove_at kt (in_names cm)) (remove_at (nth kt p 0) (out_names cm)).
+Proof. exact tsd_image_is_array_call. Qed.
+Print Assumptions tsd_image_is_array_call_on_input_axes.
+
+Theorem tsd_image_spelling_independent :
+  forall cm p (a : nda Z) kt ks tid sid tid' sid',
+  wf_cmap cm p -> kt < length (in_names cm) -> ks < length (in_names cm) ->
+  names_axis cm p kt tid -> names_axis cm p ks sid -> names_axis cm p kt tid' -> names_axis cm p ks sid' ->
+  tsd_image cm a tid sid = tsd_image cm a tid' sid'.
+Proof. exact ImgAxisProofs.tsd_image_spelling_independent. Qed.
+Print Assumptions tsd_image_spelling_independent.
+
+(* non-vacuity: time axis rolled to the front of the array ('t','i','j' -> 'x','y','t', p = [2;0;1]), shape (3,2,2):
+   the names resolve to input indices (0, 2); addressing the array with the OUTPUT indices (2, 1) instead gives
+   different numbers (2 volume means instead of 3). *)
+Example tsd_image_rolled_time_axis :
+  let cm := mk_cmap ["t"; "i"; "j"]%string ["x"; "y"; "t"]%string [Some 2; Some 0; Some 1] in
+  let a := of_flat 0%Z [3; 2; 2] [1; 2; 3; 4; 5; 6; 7; 8; 9; 10; 11; 13]%Z in
+  wf_cmap cm [2; 0; 1]
+  /\ io_axis_indices cm (AxName "t") = AxOk (Some 0) (Some 2)
+  /\ io_axis_indices cm (AxName "y") = AxOk (Some 2) (Some 1)
+  /\ (match tsd_image cm a (AxName "t") (AxName "y") with
+      | ImgRes (Ok o) vin vout => Nat.eqb (length (volume_means o)) 3 && slist_eqb vin ["i"; "j"]%string && slist_eqb vout ["x"; "y"]%string
+      | _ => false end) = true
+  /\ (match tsd_image_out_idx cm a (AxName "t") (AxName "y") with
+      | ImgRes (Ok o) _ _ => Nat.eqb (length (volume_means o)) 2 | _ => false end) = true.
+Proof.
+  cbv zeta. split.
+  - unfold wf_cmap. cbn [in_names out_names ornts length map].
+    repeat split; try reflexivity.
+    + repeat constructor; cbn; intuition discriminate.
+    + repeat constructor; cbn; intuition discriminate.
+    + repeat constructor; cbn; intuition discriminate.
+    + intros x Hx. cbn in Hx. lia.
+  - repeat split; vm_compute; reflexivity.
+Qed.
